@@ -865,6 +865,11 @@ func (e *Exec) unify(st *State, l Term, lt types.Type, r Term, rt types.Type) (T
 
 // shamt converts an Int shift amount into a 64-bit vector through a constant ladder.
 func (e *Exec) shamt(k Term) Term {
+	if k.Sort == SBV64 && strings.HasPrefix(k.S, "((_ int2bv 64) ") {
+		// uint(k) of an Int k in word mode: the amount is k itself (negative or >= 64: the ladder yields 64, i.e. the shift gives 0,
+		// as in Go where the converted amount is >= 64)
+		k = Term{k.S[len("((_ int2bv 64) ") : len(k.S)-1], SInt}
+	}
 	if k.Sort == SBV64 {
 		return k
 	}
